@@ -92,7 +92,7 @@ func plans() []planT {
 
 func run(c *wk.Ctx) {
 	ps := plans()
-	reps := c.Pick(6, 40)
+	reps := c.Pick(60, 400)
 	n := len(ps) * reps
 	for i := 0; i < n; i++ {
 		if c.Mine(i) {
@@ -134,12 +134,13 @@ func directedCacheRecursion(c *wk.Ctx, i int) {
 	}()
 	<-arrived
 	go func() { cc.Close(false); close(doneB) }()
-	// wait until Close is parked on the write lock (it cannot proceed while Get holds the read lock)
+	// wait until Close is waiting for the Get in flight (it cannot proceed while Get holds the read lock)
 	for t := 0; t < 500; t++ {
 		_, gs := hang.Dump()
 		parked := false
 		for _, g := range gs {
-			if g.State == "sync.RWMutex.Lock" && strings.Contains(strings.Join(g.Frames, " "), "cache.(*Cache).Close") {
+			// parked on the write lock (before fix 10db0f9) or polling for the in-flight operations to leave (since)
+			if (g.State == "sync.RWMutex.Lock" || g.State == "sleep") && strings.Contains(strings.Join(g.Frames, " "), "cache.(*Cache).Close") {
 				parked = true
 			}
 		}
